@@ -1,6 +1,7 @@
 """C01 - field arithmetic is exact arithmetic mod 2^255-19 in every backend (layer L, O3 IR, llsym)."""
 import time
 from vp import build
+from vp import native
 from vp.lharness import *
 from checks.fieldspec import FIELD
 from llsym.poly import Poly
@@ -34,7 +35,7 @@ def fe_harness0(rep, cfg, modpath, fn, in_bounds, spec, out_bound, tier, extra_i
             if n2 == gname: return eval_concrete(r2, c2), dict(llsym_concrete_outputs=[x.cval() for x in o2])
         return False, "goal not found"
     return discharge(rep, run, "%s/%s" % (cfg, fn), goals, o, cfg, fn,
-                     "input limbs <= %s ; all values" % (in_bounds,), timeout_s=timeout_s, replay=replay, selftest=build_run,
+                     "input limbs <= %s ; all values" % (in_bounds,), timeout_s=timeout_s, replay=replay, selftest=build_run, nat=(cfg, fn, lay),
                      assumptions=[note] if note else [])
 
 def run_config(rep, cfg, tier, tasks, flavour="O3"):
@@ -74,7 +75,7 @@ def enc_harness(rep, cfg, modpath, tier, T):
         for (n2, c2) in g2:
             if n2 == gname: return eval_concrete(r2, c2), dict(llsym_concrete_outputs=[x.cval() for x in o2])
         return False, "goal not found"
-    discharge(rep, run, "%s/vp_fe_as_bytes" % cfg, goals, o, cfg, "vp_fe_as_bytes", "limbs <= %s" % (F["enc_in"],), timeout_s=max(T, 120), replay=replay, selftest=build_run)
+    discharge(rep, run, "%s/vp_fe_as_bytes" % cfg, goals, o, cfg, "vp_fe_as_bytes", "limbs <= %s" % (F["enc_in"],), timeout_s=max(T, 120), replay=replay, selftest=build_run, nat=(cfg, 'vp_fe_as_bytes', BYTES32))
 
 def dec_harness(rep, cfg, modpath, tier, T):
     F = FIELD[cfg]; lay = F["layout"]
@@ -97,13 +98,14 @@ def dec_harness(rep, cfg, modpath, tier, T):
         for (n2, c2) in g2:
             if n2 == gname: return eval_concrete(r2, c2), dict(llsym_concrete_outputs=[x.cval() for x in o2])
         return False, "goal not found"
-    discharge(rep, run, "%s/vp_fe_from_bytes" % cfg, goals, o, cfg, "vp_fe_from_bytes", "all 2^256 byte strings", timeout_s=T, replay=replay, selftest=build_run)
+    discharge(rep, run, "%s/vp_fe_from_bytes" % cfg, goals, o, cfg, "vp_fe_from_bytes", "all 2^256 byte strings", timeout_s=T, replay=replay, selftest=build_run, nat=(cfg, "vp_fe_from_bytes", lay))
 
 def run(tier, seed):
     rep = Report("C01")
     cfgs = ["serial64", "serial32"] if tier == "quick" else ["serial64", "serial32", "fiat64", "fiat32"]
     cfgs = ["serial64", "serial32", "fiat64", "fiat32"]
     build.ir_many([dict(config=c, flavour="O3") for c in cfgs])
+    for c in cfgs: native.binary(c)
     tasks = []
     for cfg in cfgs:
         run_config(rep, cfg, tier, tasks)
